@@ -17,16 +17,16 @@ func histPlan(tier string, rule string) Plan {
 func histPlanAudit(tier string, rule string) Plan {
 	p := histPlan(tier, rule+auditRule)
 	p.Runs += auditRuns(tier)
+	p.Enumerated = auditRuns(tier) // the audits come first and are never cut by the wall-clock budget
 	return p
 }
 
-const auditRule = "; the last 8 (thorough: 48) runs are full-list audits: a 700..4500-entry (thorough: up to 17000) list is loaded (first load) and replaced (refresh) on each backend, and EVERY listed serial, every removed serial and the never-listed neighbour of every listed serial is probed"
+const auditRule = "; the first 8 (thorough: 48) runs are full-list audits: a 700..4500-entry (thorough: up to 17000) list is loaded (first load) and replaced (refresh) on each backend, and EVERY listed serial, every removed serial and the never-listed neighbour of every listed serial is probed"
 
 func histOrAudit(h *Harness, cfg histCfg, prefix string) {
-	base := histPlan(h.Tier, "").Runs
-	if h.Idx >= base {
+	if n := auditRuns(h.Tier); h.Idx < n {
 		ownPrefix = prefix
-		runFullAudit(h, h.Idx-base)
+		runFullAudit(h, h.Idx)
 		return
 	}
 	runCRLHistoryOwned(h, cfg, prefix)
@@ -39,13 +39,14 @@ func init() {
 		histOrAudit(h, histCfg{prop: "C01", strictBias: 30, withOCSP: true, faulty: true, histLen: 6}, "C01.")
 	}})
 	register(&PropDef{ID: "C10", Plan: func(t string) Plan {
-		p := histPlan(t, histRule+"; the last 30 (thorough: 400) runs are concurrent-strictness scenarios: 2-5 overlapping strict handshakes for one distribution point while its origin fails or stalls (6 failure kinds x backend x fetch mode), then while the first good delivery is slow, under seeded preemption")
+		p := histPlan(t, histRule+"; the first 30 (thorough: 400) runs are concurrent-strictness scenarios: 2-5 overlapping strict handshakes for one distribution point while its origin fails or stalls (6 failure kinds x backend x fetch mode), then while the first good delivery is slow, under seeded preemption")
 		p.Runs += strictConcRuns(t)
+		p.Enumerated = strictConcRuns(t) // they come first and are never cut by the wall-clock budget
 		return p
 	}, Run: func(h *Harness) {
-		if base := histPlan(h.Tier, "").Runs; h.Idx >= base {
+		if h.Idx < strictConcRuns(h.Tier) {
 			ownPrefix = "C10."
-			runStrictConcurrent(h, h.Idx-base)
+			runStrictConcurrent(h, h.Idx)
 			return
 		}
 		runCRLHistoryOwned(h, histCfg{prop: "C10", strictBias: 60, faulty: true, histLen: 6}, "C10.")
